@@ -1,4 +1,4 @@
-"""C15 -- scopes and name tables agree with Python's symbol table (VGC rules R15.1-R15.17)."""
+"""C15 -- scopes and name tables agree with Python's symbol table (VGC rules R15.1-R15.18)."""
 from __future__ import annotations
 
 import ast
@@ -22,6 +22,7 @@ EXPLANATION = (
     ' R15.13: every pattern-typed field is passed on to a visitor that records capture names.  R15.14: a child x.F is traversed whenever present -- the visit may be conditional on x.F only, never on a sibling field.'
 )
 EXPLANATION += " R15.17: a `:=` target inside a comprehension is not local to the comprehension; the containing scope's visitor collects it."
+EXPLANATION += " R15.18: in the scope visitors every path through the handler of a def / class stores the definition under its own name."
 ASSUMPTIONS = [
     "handler summaries are flow-insensitive; an unknown idiom makes a field count as reached (under-approximation of gaps)",
     "the oracle tables BINDS/TARGET_FIELDS/SCOPES/REDIRECTS in sa/grammar.py state the language reference",
@@ -84,6 +85,7 @@ def check(ctx, res) -> None:
     sibling_search_rule(ctx, res, "R15.15")
     walrus_in_comprehension_rule(ctx, res, "R15.17")
     comprehension_sees_parent_rule(ctx, res, "R15.16")
+    definition_binds_its_name_rule(ctx, res, "R15.18")
 
 
 def _check_main(ctx, res) -> None:
@@ -638,3 +640,42 @@ def walrus_in_comprehension_rule(ctx, res, rule: str) -> None:
             "the containing scope's visitor collects the `:=` targets of the comprehension" if looks else
             "the visitor of the containing scope creates the comprehension object and never looks inside it: the target of a `:=` in the comprehension is missing from "
             "the containing scope's names although the interpreter binds it there", function=g.qualname)
+
+
+def definition_binds_its_name_rule(ctx, res, rule: str) -> None:
+    """R15.18: `def f` / `class C` bind their name in the scope that holds the statement -- always: decorated or not, whatever the
+    decorator, in a class body, a function or a module.  In the scope visitors' handlers of FunctionDef and ClassDef every
+    path from entry to the normal exit passes a store into the visitor's name table under the statement's own name
+    (`self.names[node.name] = ...`); a path that skips it (a decorator recognised in one kind of scope only) leaves a
+    definition whose scope exists but whose name cannot be looked up."""
+    idx = ctx.idx
+    from . import common
+    from ..cfg import CFG
+    n = 0
+    seen = set()
+    for q in dict.fromkeys(SCOPE_VISITORS.values()):
+        idx.need_class(q)
+        for hname in ("_FunctionDef", "_ClassDef"):
+            m = idx.find_method(q, hname)  # usually inherited from the common base of the visitors
+            if m is None or m.qualname in seen:
+                continue
+            seen.add(m.qualname)
+            c = m.cls
+            node = common.inlined(idx, m)
+            p = param_names(m.node)
+            if len(p) < 2:
+                continue
+            cfg = CFG(node)
+            stores = [nd.id for nd in cfg.nodes if nd.kind == "stmt" and isinstance(nd.ast, ast.Assign) and any(
+                isinstance(t, ast.Subscript) and is_self_attr(t.value, "names") and isinstance(t.slice, ast.Attribute) and t.slice.attr == "name"
+                and isinstance(t.slice.value, ast.Name) and t.slice.value.id == p[1] for t in nd.ast.targets)]
+            if not stores:
+                continue  # a handler that does not bind here (delegates to another visitor): nothing to say
+            n += 1
+            skipped = cfg.exit.id in cfg.reachable(cfg.entry.id, avoid_nodes=stores)
+            res.add(rule, f"{c.name}.{hname}|every-path-binds-the-name", not skipped, m.where,
+                    "every path through the handler stores the definition under its name" if not skipped else
+                    f"{c.name}.{hname} has a path to its end that does not store `self.names[{p[1]}.name]`: a definition that takes it (e.g. a `@property` function outside a "
+                    "class body, which only the class visitor turns into a property) has a scope but no name -- get_names() of the enclosing scope lacks it and lookup() "
+                    "answers None where the interpreter's symbol table has the binding", function=m.qualname)
+    res.floor(rule, "def/class handlers that bind a name", n, 2)
